@@ -778,3 +778,10 @@ Theorem C15_inventory_outputs_uniform : forall a b, In a FormsInventory.inventor
   FormsInventoryProofs.same_op a b = true -> FormsInventoryProofs.same_out a b = true.
 Proof. exact FormsInventoryProofs.inventory_outputs_uniform. Qed.
 Print Assumptions C15_inventory_outputs_uniform.
+
+(** the forms with a prepared divisor (&ConstDivisor; integer/src/div_const.rs) return what the plain operators return *)
+From Dashu Require Import Forms.FormsConstDiv.
+Theorem C15_constdiv_forms_agree : forall w, 0 < w -> forall a d, 0 <= d ->
+  cd_divrem_asis w a d = divrem_spec a d /\ cd_div_asis w a d = iop_spec IoDiv a d /\ cd_rem_asis w a d = iop_spec IoRem a d.
+Proof. exact constdiv_forms_agree. Qed.
+Print Assumptions C15_constdiv_forms_agree.
